@@ -99,6 +99,7 @@ func checkC03(c *core.Ctx) {
 	r32 := c.Rule("R3.2", "T", "resume protocol of decodeNextLayer and agreement with eager NextDecoder")
 	r33 := c.Rule("R3.3", "T", "NextDecoder is the last PacketBuilder effect in every decoder")
 	addLayerBeforeChaining(c, c.Rule("R3.4", "T", "every decoder adds a layer before chaining (= R1.4): eager NextDecoder refuses to chain from a decoder that added nothing, lazy NextDecoder does not"))
+	truncatedOnlyRaised(c, c.Rule("R3.7", "T", "PacketSource.NextPacket only raises the Truncated flag, never overwrites it"))
 	r35 := c.Rule("R3.5", "T", "who may read Lazy / SkipDecodeRecovery / DecodeStreamsAsDatagrams")
 	r36 := c.Rule("R3.6", "T", "decoders neither downcast nor retain the PacketBuilder")
 
@@ -542,12 +543,45 @@ func checkC03(c *core.Ctx) {
 	// ---- R3.3 over every function having a PacketBuilder param
 	roots := p.Roots()
 	n33 := 0
+	// helpers that chain on behalf of their caller (decodingLayerDecoder): calling one is chaining
+	chains := map[*ssa.Function]bool{}
+	for changed := true; changed; {
+		changed = false
+		for _, fn := range core.SortedFns(roots.DecReach) {
+			if chains[fn] || builderParam(fn) == nil {
+				continue
+			}
+			core.Instrs(fn, func(ins ssa.Instruction) {
+				if isBuilderCall(ins, "NextDecoder") {
+					chains[fn] = true
+				}
+				if cc := core.CallCommonOf(ins); cc != nil && cc.StaticCallee() != nil && chains[cc.StaticCallee()] {
+					for _, a := range cc.Args {
+						if a == ssa.Value(builderParam(fn)) {
+							chains[fn] = true
+						}
+					}
+				}
+			})
+			if chains[fn] {
+				changed = true
+			}
+		}
+	}
 	for _, fn := range core.SortedFns(roots.DecReach) {
 		if builderParam(fn) == nil {
 			continue
 		}
 		core.Instrs(fn, func(ins ssa.Instruction) {
-			if !isBuilderCall(ins, "NextDecoder") {
+			viaHelper := false
+			if cc := core.CallCommonOf(ins); cc != nil && cc.StaticCallee() != nil && chains[cc.StaticCallee()] && cc.StaticCallee() != fn {
+				for _, a := range cc.Args {
+					if a == ssa.Value(builderParam(fn)) {
+						viaHelper = true
+					}
+				}
+			}
+			if !isBuilderCall(ins, "NextDecoder") && !viaHelper {
 				return
 			}
 			n33++
